@@ -3,6 +3,7 @@ package props
 import (
 	"fmt"
 	"go/token"
+	"go/types"
 	"os"
 	"strings"
 
@@ -18,7 +19,7 @@ func init() {
 		Explanation: "Decides where and how often actions run and the shape of the counter updates, not the arithmetic results: R1 Action.Evaluate is invoked from a frozen set of call sites, each under no condition other than its documented type filter (non-disruptive actions per matched value; flow and disruptive actions once, by the chain starter only, after the chain walk); " +
 			"R2 on every path through the 'operator matched' branch of doEvaluate the per-match hook (Rule.matchVariable) runs exactly once, never on the no-match path, and MATCHED_* are set before the actions of that match; HIGHEST_SEVERITY is written only by MatchRule (i.e. for rules that fired) and only when the rule's severity is lower than the current value; " +
 			"R2 also: MATCHED_VARS is emptied before every rule under no condition other than being non-empty, and MATCHED_VARS/MATCHED_VARS_NAMES are only extended (Add) or reset, never overwritten per name; R3 the RULE collection and the capture flag are set before any operator or action of the rule runs, and TX.0-9 are written by CaptureField only under the rule's capture flag; R4 the logging actions write exactly the documented (Log, Audit) flags; " +
-			"R5 setvar's '+'/'-' branches add / subtract the number parsed from the text after the sign to / from the number parsed from the current value, and macros are expanded inside Evaluate (at match time), not at Init.",
+			"R6 code running during a transaction reads the transaction's copy of every setting that WAF and Transaction both hold (AuditLogParts, body access and limits, engine modes), never the configured WAF value, except as the upper bound of a ctl limit; R5 setvar's '+'/'-' branches add / subtract the number parsed from the text after the sign to / from the number parsed from the current value, and macros are expanded inside Evaluate (at match time), not at Init.",
 		NotDecided: []string{
 			"the arithmetic itself (strconv, integer overflow) and macro expansion results",
 			"totals at the end of a phase (follow from once-per-match plus the arithmetic)",
@@ -534,6 +535,9 @@ func runC09(c *an.Ctx) {
 		}
 	}
 
+	// ---- R6 transaction-time code works on the transaction's own copy of a setting.
+	c09TwinSettings(c)
+
 	// ---- R5 setvar shape
 	if fn := c.Fn("R5", "internal/actions.(*setvarFn).evaluateTxCollection"); fn != nil {
 		plus, minus := 0, 0
@@ -641,4 +645,89 @@ func runC09(c *an.Ctx) {
 			}
 		}
 	}
+}
+
+// c09TwinSettings: every setting that a ctl action (or a connector) may change per transaction exists twice, as
+// WAF.F (configuration) and Transaction.F (copied by newTransaction, then changed by ctl).  Code that runs during
+// a transaction must read Transaction.F: reading WAF.F instead silently undoes what earlier rules of the same
+// transaction did (ctl:auditLogParts=+E applied to the configured parts, body access decided from the
+// configuration although a ctl switched it).  The twins are computed from the two struct types; the only
+// transaction-time readers of a WAF twin allowed are pure upper-bound comparisons (ctl limits may not exceed the
+// configured limit) in a function that goes on to store the transaction's field of the same name.
+func c09TwinSettings(c *an.Ctx) {
+	txT, wafT := c.P.LookupType(pkgWAF, "Transaction"), c.P.LookupType(pkgWAF, "WAF")
+	if txT == nil || wafT == nil {
+		c.Unknown("R6", "Transaction and WAF types resolve", token.NoPos, "type not found")
+		return
+	}
+	txS, ok1 := txT.Underlying().(*types.Struct)
+	wafS, ok2 := wafT.Underlying().(*types.Struct)
+	if !ok1 || !ok2 {
+		return
+	}
+	twin := map[string]bool{}
+	for i := 0; i < txS.NumFields(); i++ {
+		for j := 0; j < wafS.NumFields(); j++ {
+			if txS.Field(i).Name() == wafS.Field(j).Name() && types.Identical(txS.Field(i).Type(), wafS.Field(j).Type()) && txS.Field(i).Name() != "WAF" {
+				twin[txS.Field(i).Name()] = true
+			}
+		}
+	}
+	c.MinCount("R6", "settings held both by WAF and Transaction", len(twin), 6)
+	nReads := 0
+	seen := map[string]int{}
+	for _, fn := range c.P.ModFuncs {
+		rp := relPkg(fn)
+		if rp != "internal/actions" && rp != pkgWAF && rp != "http" && rp != "internal/operators" && rp != "internal/bodyprocessors" && rp != "internal/auditlog" {
+			continue
+		}
+		outer := an.OuterFn(fn)
+		if recv := outer.Signature.Recv(); recv != nil && strings.HasSuffix(strings.TrimPrefix(recv.Type().String(), "*"), "corazawaf.WAF") {
+			continue // the WAF's own methods (newTransaction copies the settings, Validate checks them)
+		}
+		if rp == pkgWAF && (outer.Name() == "NewWAF" || outer.Name() == "init") {
+			continue
+		}
+		an.Instrs(fn, func(in ssa.Instruction) {
+			ld, ok := in.(*ssa.UnOp)
+			if !ok || ld.Op != token.MUL {
+				return
+			}
+			fa, ok := ld.X.(*ssa.FieldAddr)
+			if !ok || !strings.HasSuffix(strings.TrimPrefix(fa.X.Type().String(), "*"), "corazawaf.WAF") {
+				return
+			}
+			name := an.FieldVar(fa).Name()
+			if !twin[name] {
+				return
+			}
+			nReads++
+			c.FuncsAnalysed[fn] = true
+			k := "WAF." + name + " read during a transaction in " + an.RelName(fn)
+			seen[k]++
+			key := k
+			if seen[k] > 1 {
+				key += fmt.Sprintf("#%d", seen[k])
+			}
+			boundOnly := len(*ld.Referrers()) > 0
+			for _, r := range *ld.Referrers() {
+				b, isB := r.(*ssa.BinOp)
+				if !isB || !(b.Op == token.GTR || b.Op == token.LSS || b.Op == token.GEQ || b.Op == token.LEQ) {
+					boundOnly = false
+				}
+			}
+			storesOwn := false
+			for _, fs := range c.P.StoresToField(pkgWAF, "Transaction", name) {
+				if fs.Fn == fn {
+					storesOwn = true
+				}
+			}
+			if boundOnly && storesOwn {
+				c.Ok("R6", key, in.Pos(), "used only as the upper bound of the value stored into Transaction."+name)
+			} else {
+				c.Bad("R6", key, in.Pos(), "code that runs during a transaction reads the configured WAF."+name+" where the transaction carries its own "+name+" (copied at creation, changed by ctl actions): what an earlier rule of this transaction set is ignored or undone")
+			}
+		})
+	}
+	c.MinCount("R6", "transaction-time readers of a WAF twin", nReads, 0)
 }
